@@ -702,6 +702,9 @@ def check(ctx):
     ctx.rule("R8", "request and segment codec: the STATU request the client builds is decoded by the peer to the same sequence number, start and length for EVERY value of those fields, and a STATV segment to the same index / next / payload (C04's symbolic round trip of the status-block messages borrowed) - a request the simulator cannot decode produces no chain at all")
     from .c04 import round_trips as _round_trips
     _round_trips(ctx.borrowed("R8", "C04", only=("R2",), key_prefix="GeckoStatusBlockProtocolHandler"), repo)
+    ctx.rule("R9", "nothing of an earlier transfer is left for the next one: STATV carries no request identifier, so a segment still in the receive queue when a later transfer starts is read as ITS reply - the discard consumer, interpreted on a real peekable queue, removes a datagram nobody claimed after one mark-and-wait pass and survives doing so (C07.R7's discard-consumer model borrowed)")
+    from .c07 import discard_consumer_model as _dcm
+    _dcm(ctx.borrowed("R9", "C07"), repo, "R7")
     async_assembly(ctx, repo)
     # the completed assembler keeps its segment list until the engine's clean-up removes the handler: the engine must
     # not dispatch a second datagram before that (engine model, vlib/enginemodel.py)
